@@ -84,6 +84,27 @@ claim("C20",
       "attachment the graphs stay trees, where routes are unique.",
       "ast pattern rules over registration sites + who-may-write census", "§3 C20")
 
+claim("C05",
+      "Clause-level: the setters snapshot the orbit in keplerian_mean form; Kepler.propagate writes only M and the "
+      "date (index resolved through the form table) and ΔM = n·Δt symbolically; J2's increment has literal zeros "
+      "for (a, e, i) and its three rates equal the first-order secular formulas as term-algebra normal forms, with "
+      "the polar-orbit and critical-inclination corollaries and no angle atom in any rate (additivity in Δt, hence "
+      "composition and inverse); initial orbit never written; result a fresh cartesian copy.",
+      "Not decided: agreement with an independent universal-variable two-body solution, periodicity as numbers. "
+      "Relies on C01 for the conversions keplerian_mean <-> cartesian and Infos.n.",
+      "ast write-set rules + canonical term algebra on the rate expressions", "§3 C05")
+
+claim("C06",
+      "Clause-level: the three hypotheses of the convergence theorem as visible in the source — all four Butcher "
+      "tableaux satisfy shapes, row sums and every rooted-tree order condition up to the claimed order in exact "
+      "rational arithmetic (euler 1, rk4 4, rkf54/dopri54 5 with embedded 4); the stage loop pairs a[k] with c[k], "
+      "forms y_n + h a.ks at t_n + h c, combines with b and estimates the error with b - b*, accepts on error <= tol, "
+      "raises on non-convergence, marches by the accepted step; the right-hand side is x'=v, v'=sum mu_b d/|d|^3 plus "
+      "thrust inside burn windows; copy() forwards every constructor parameter.",
+      "Not decided: measured order, energy/momentum drift, millimetre independence from the output step (numerical). "
+      "R06.2/R06.3 are shape rules on the 25 statements of _make_step/_accel.",
+      "exact constant folding of the tableaux (order conditions) + ast pattern rules", "§3 C06")
+
 NOT_YET = "check not built yet in this revision; rules designed in DESIGN.md §3 — claimed once its checker is committed"
 
 ALL = [f"C{i:02d}" for i in range(1, 21)]
